@@ -104,12 +104,43 @@ func compileRegexp2(src string, multiline, dotAll, ignoreCase, unicode bool) (*r
 	if unicode {
 		opts |= regexp2.Unicode
 	}
-	regexp2Pattern, err1 := regexp2.Compile(src, opts)
+	regexp2Pattern, err1 := regexp2.Compile(regexp2EscapeClassDash(src), opts)
 	if err1 != nil {
 		return nil, fmt.Errorf("Invalid regular expression (regexp2): %s (%v)", src, err1)
 	}
 
 	return &regexp2Wrapper{rx: regexp2Pattern}, nil
+}
+
+// regexp2EscapeClassDash rewrites an escaped dash inside a character class ("[ -\\-]", "[\\--_]") as \x2D.
+// regexp2 does not accept "\\-" as an end point of a class range: it silently reads the three atoms of "x-\\-" as single
+// characters, or reports "range in reverse order" for a pattern that RE2 has already accepted (createRegexp2 then panics).
+func regexp2EscapeClassDash(src string) string {
+	if !strings.Contains(src, `\-`) {
+		return src
+	}
+	var sb strings.Builder
+	inClass := false
+	for i := 0; i < len(src); i++ {
+		c := src[i]
+		switch {
+		case c == '\\' && i+1 < len(src):
+			if inClass && src[i+1] == '-' {
+				sb.WriteString(`\x2D`)
+			} else {
+				sb.WriteByte(c)
+				sb.WriteByte(src[i+1])
+			}
+			i++
+			continue
+		case c == '[' && !inClass:
+			inClass = true
+		case c == ']' && inClass:
+			inClass = false
+		}
+		sb.WriteByte(c)
+	}
+	return sb.String()
 }
 
 func (p *regexpPattern) createRegexp2() {
